@@ -49,13 +49,16 @@ func VH_C09_History() {
 	X := vParam("X")
 	p0, f0 := vhOp(X, A, B)
 	vAssert("lock-free-after-first", vhLockFree())
-	o1, o2, o3 := vInt("op1", 0, 6), vInt("op2", 0, 6), vInt("op3", 0, 6)
-	vhOp(vConcretize(o1), A, B)
-	vAssert("lock-free-1", vhLockFree())
-	vhOp(vConcretize(o2), A, B)
-	vAssert("lock-free-2", vhLockFree())
-	vhOp(vConcretize(o3), A, B)
-	vAssert("lock-free-3", vhLockFree())
+	// H calls (unit parameter, default 3) chosen by the solver from the menu
+	H := 3
+	if vHasParam("H") {
+		H = vParam("H")
+	}
+	names := []string{"op1", "op2", "op3", "op4", "op5", "op6"}
+	for i := 0; i < H && i < len(names); i++ {
+		vhOp(vConcretize(vInt(names[i], 0, 6)), A, B)
+		vAssert("lock-free-"+names[i][2:], vhLockFree())
+	}
 	p1, f1 := vhOp(X, A, B)
 	vAssert("same-outcome-after-history", p0 == p1 && f0 == f1)
 	vReach("C09a")
